@@ -71,7 +71,8 @@ def check_point(res, nf, pto, ren, fact, fm):
 
 def gen_case(rng, quick):
     pto = rng.choice([1, 2, 2] if quick else [1, 2, 2, 3])
-    th = dict(FNS="ZM-VFNS", PTO=pto, PTODIS=pto, kcThr=rng.choice([1.0, 2.0]), kbThr=rng.choice([1.0, 0.75]))
+    # the order of the coefficient functions (PTODIS) is what the scale-variation terms follow; the evolution order (PTO) may be lower
+    th = dict(FNS="ZM-VFNS", PTO=pto if rng.random() < 0.6 else pto - 1, PTODIS=pto, kcThr=rng.choice([1.0, 2.0]), kbThr=rng.choice([1.0, 0.75]))
     proc = rng.choice(["NC", "EM", "CC"])
     name = rng.choice(["F2", "FL", "F3"] if proc != "EM" else ["F2", "FL"]) + "_" + rng.choice(["light", "total"])
     mc2, mb2 = (1.5 * th["kcThr"]) ** 2, (4.5 * th["kbThr"]) ** 2
@@ -82,7 +83,7 @@ def gen_case(rng, quick):
 
 
 def run_case(c):
-    pto = c["theory"]["PTO"]
+    pto = c["theory"]["PTODIS"]
     res = {}
     for ren, fact in ((True, True), (True, False), (False, True), (False, False)):
         th = cards.theory_card(RenScaleVar=ren, FactScaleVar=fact, **c["theory"])
@@ -121,9 +122,12 @@ def run_case(c):
 
 def patrol(chk, n):
     bad, dist, crashed = [], {}, {}
-    for _ in range(n):
-        c = gen_case(chk.rng, chk.tier == "quick")
-        key = "PTO%d/%s" % (c["theory"]["PTO"], c["obs"]["prDIS"])
+    # always part of the patrol: coefficient functions one order above the evolution (the scale-variation terms follow PTODIS, not PTO)
+    fixed = [dict(theory=dict(FNS="ZM-VFNS", PTO=1, PTODIS=2, kcThr=1.0, kbThr=1.0), obs=dict(prDIS="NC"), name="F2_total",
+                  points=[dict(x=0.25, Q2=30.0), dict(x=0.125, Q2=5.0)])]
+    for it in range(n + len(fixed)):
+        c = fixed[it - n] if it >= n else gen_case(chk.rng, chk.tier == "quick")
+        key = "PTODIS%d/PTO%d/%s" % (c["theory"]["PTODIS"], c["theory"]["PTO"], c["obs"]["prDIS"])
         dist[key] = dist.get(key, 0) + 1
         try:
             r = run_case(c)
@@ -133,8 +137,8 @@ def patrol(chk, n):
             continue
         if r is not None:
             bad.append((c, r))
-    chk.patrol["rge_on_real_runs"] = dict(cases=n, failures=len(bad), distribution=dist, crashed_not_counted=crashed,
-                                          rule="ZM-VFNS runs whose points lie in different nf regimes (shuffled), four RenScaleVar/FactScaleVar combinations: muR relations "
+    chk.patrol["rge_on_real_runs"] = dict(cases=n + len(fixed), failures=len(bad), distribution=dist, crashed_not_counted=crashed,
+                                          rule="ZM-VFNS runs whose points lie in different nf regimes (shuffled; evolution order PTO equal to or one below PTODIS, one fixed NNLO-on-NLO case), four RenScaleVar/FactScaleVar combinations: muR relations "
                                                "with beta(nf of the point); muF tensors (1,0,0,1), (2,0,0,1), (2,0,0,2) rebuilt from the central tensors with operators of a fresh "
                                                "manager for that nf; switch-off = exact sub-dictionary; each point equals the same point computed alone")
     for c, r in bad[:3]:
